@@ -120,6 +120,7 @@ type style struct {
 	pct      bool   // portions as percentages, where the decimal expansion is finite
 	odExpr   bool   // overdraft bounds as a difference of two monetaries
 	assetVar bool   // amounts as [$as N], the asset being a variable
+	lead0    bool   // amounts written with leading zeros ([USD 007])
 	collide  bool   // send i uses asset collideAssets[i] and accounts renamed by collideName
 	send     int    // index of the send being rendered
 	pv       *pvars // portions given by variables (negative denominator), collected while rendering
@@ -171,10 +172,14 @@ func (st style) assetName() string {
 
 func mon(n int64, st style) string {
 	v := new(big.Int).Mul(big.NewInt(n), st.k)
-	if st.assetVar {
-		return fmt.Sprintf("[$as %s]", v.String())
+	digits := v.String()
+	if st.lead0 && v.Sign() >= 0 {
+		digits = "00" + digits
 	}
-	return fmt.Sprintf("[%s %s]", st.assetName(), v.String())
+	if st.assetVar {
+		return fmt.Sprintf("[$as %s]", digits)
+	}
+	return fmt.Sprintf("[%s %s]", st.assetName(), digits)
 }
 
 // percent spelling of n/d when n*100/d has a finite decimal expansion
@@ -673,6 +678,7 @@ func runCase(c Case) Result {
 		if hasBoundedOverdraft(c) {
 			try("overdraft-bound-as-difference", style{odExpr: true}, map[string]string{}, storeOf(c.Bal, one), asset)
 		}
+		try("amounts-with-leading-zeros", style{lead0: true}, map[string]string{}, storeOf(c.Bal, one), asset)
 		// the asset as a variable: the same text twice through the compilation cache, with two assets
 		try("asset-variable", style{assetVar: true}, map[string]string{"as": asset}, storeOf(c.Bal, one), asset)
 		try("asset-variable-other-asset", style{assetVar: true}, map[string]string{"as": "EUR/2"}, storeIn(c.Bal, one, "EUR/2"), "EUR/2")
